@@ -51,6 +51,10 @@ CHECKS = {
    text="Track trees with a probe effect per track, probe sounds (every call logged) and static sounds with start delays run through the real manager on the simulated device under a seeded history of pause (with fades), resume now / delayed / at a clock time, clock start / drop, and handle drops of parents, children and sounds in any order with persistence on or off. Freeze oracle: once a pause fade has surely ended (per-track local clocks with lower and upper bounds) nothing beneath the node is called, static sounds keep their position and their start delays stop counting; no jump after the resume. Removal oracle: a track is processed as long as its handle, a descendant's handle or - if persistent - an unfinished sound keeps it alive, and is gone two callbacks after nothing does. State oracle: TrackHandle::state() never panics, is one of the five states, equals Paused / Playing once the model is sure.",
    note="Pause and resume of one track are not issued in the same gap. Three defects found here were repaired (track removed with a sound / child still queued; state() panic after resume_at on a removed clock).",
    technique="deterministic simulation of op histories against a life-cycle / ownership model with interval-valued local time; probe call logs as observations"),
+ "C16": dict(level="exploration", design="3 C16, appendix A.5",
+   text="Three simulated workloads. (orders) tracks, nested tracks and send tracks carrying a rate-probe effect are created in every order relative to device sample-rate changes (8 kHz .. 192 kHz) and callbacks; at every process call the rate the effect was last told (init / on_change_sample_rate) must equal 1/dt and the device rate in force. (sched) the add-track paths are preempted by the seeded gate scheduler between reading the shared sample rate and enqueueing the track, against a device task that changes the rate and runs callbacks. (seconds) one scene described in seconds - a finite sound at any source and playback rate, a clock, a volume tween, a delay echo - is rendered in three worlds at different device rates, one of which changes its rate mid-stream; sound duration, clock ticks, tween duration and echo time must agree in seconds within two callbacks.",
+   note="One open known finding (a track queued while the rate changes keeps the old rate in its effects): while it is listed, rate changes are not generated while a track is waiting to be picked up and the sched stream runs without rate changes; its witness is replayed on every run. Filter frequency responses are not measured (C14 territory).",
+   technique="deterministic simulation: probe effects observing the rate in force over op orders and seeded thread schedules; twin worlds at different device rates compared in the seconds domain"),
 }
 NA = [
  ("C13", "pure DSP laws of (parameters, sample rate, input signal): no schedule, clock, fault or interleaving for a simulator to control; see DESIGN.md section 5"),
